@@ -622,7 +622,7 @@ void solver_case(vt::Rng& rng, int64_t icase)
         if (which <= 1)
         {
             if (rng.coin()) solver->parameter("solver::augmented::epsilon0") = rng.coin(1, 6) ? 1e-2 : log10u(-10.0, -2.0);
-            if (rng.coin()) solver->parameter("solver::augmented::epsilonK") = rng.coin(1, 4) ? 1.0 : rng.uniform(0.05, 1.0);
+            if (rng.coin()) solver->parameter("solver::augmented::epsilonK") = rng.coin(1, 4) ? 1.0 : rng.coin(1, 3) ? log10u(-12.0, -1.0) : rng.uniform(0.01, 1.0);
             if (rng.coin()) solver->parameter("solver::augmented::tau") = rng.coin(1, 4) ? rng.pick(std::vector<double>{1e-3, 0.999}) : rng.uniform(0.01, 0.99);
             if (rng.coin()) solver->parameter("solver::augmented::gamma") = 1.0 + log10u(-2.0, 3.0);
             if (rng.coin()) solver->parameter("solver::augmented::miu_max") = rng.coin() ? log10u(-3.0, 1.0) : log10u(1.0, 30.0);
@@ -637,7 +637,7 @@ void solver_case(vt::Rng& rng, int64_t icase)
         else
         {
             if (rng.coin()) solver->parameter("solver::penalty::epsilon0") = rng.coin(1, 6) ? 1e-2 : log10u(-10.0, -2.0);
-            if (rng.coin()) solver->parameter("solver::penalty::epsilonK") = rng.coin(1, 4) ? 1.0 : rng.uniform(0.05, 1.0);
+            if (rng.coin()) solver->parameter("solver::penalty::epsilonK") = rng.coin(1, 4) ? 1.0 : rng.coin(1, 3) ? log10u(-12.0, -1.0) : rng.uniform(0.01, 1.0);
             if (rng.coin()) solver->parameter("solver::penalty::eta") = rng.coin(1, 6) ? 1e+3 : std::min(1e+3, 1.0 + log10u(-2.0, 3.0));
             if (rng.coin()) solver->parameter("solver::penalty::penalty0") = rng.coin(1, 6) ? 1e+3 : log10u(-3.0, 3.0);
         }
